@@ -232,6 +232,23 @@ func c12CheckSign(c c12SignCase) h.Result {
 	// (a) signature bytes under the same entropy; the transcript object is reusable
 	ctxs := c12Ctxs{}
 	st := ctxs.transcript(e.M)
+	if len(e.Ent.Bytes) > 1 && e.Ent.Bytes[1]&1 == 1 {
+		// a signing attempt whose entropy source dries up first: whatever it
+		// returns, it must leave no trace in the key pair or the transcript (the
+		// signatures below are still compared with the reference)
+		r.Class("failed-sign-attempt-first")
+		short := h.C12Entropy{Bytes: e.Ent.Bytes[:int(e.Ent.Bytes[1]>>1)%32], Chunk: e.Ent.Chunk, EOFData: e.Ent.EOFData}
+		var (
+			fsig *sr25519.Signature
+			ferr error
+		)
+		if pn, v := h.Catch(func() { fsig, ferr = kp.Sign(short.Reader(), st) }); pn {
+			return r.Fail("sr25519.KeyPair.Sign:panic-on-short-entropy", "%v", v).Result()
+		}
+		if ferr == nil || fsig != nil {
+			return r.Fail("sr25519.KeyPair.Sign:signature-from-short-entropy", "entropy source held %d bytes; err=%v", len(short.Bytes), ferr).Result()
+		}
+	}
 	sig, err := kp.Sign(e.Ent.Reader(), st)
 	if err != nil || sig == nil {
 		return r.Fail("sr25519.KeyPair.Sign:error", "err=%v", err).Result()
